@@ -1,18 +1,21 @@
 #!/bin/bash
 # tools/regress_seeds.sh [ids...] : re-run every recorded seeded change against the CURRENT machinery
-# in the scratch environment (/tmp/mutrepo at /repo's HEAD, /tmp/mutverif copy of the simulator) and
+# in the scratch environment ($MR at /repo's HEAD, $MV copy of the simulator) and
 # write one line per seed to seeded/REGRESSION.txt (exit code of the quick check and first key).
 set -u
-OUT=/verif/seeded/REGRESSION.txt
+L="${LANE:-}"; MR=/tmp/mutrepo$L; MV=/tmp/mutverif$L
+OUT="${OUT:-/verif/seeded/REGRESSION.txt}"
+[ -d "$MR" ] || git -C /repo worktree add -q --detach "$MR" HEAD
+mkdir -p "$MV"
 IDS="$@"; [ -z "$IDS" ] && IDS=$(ls /verif/seeded | grep -E '^C[0-9]+-')
-git -C /tmp/mutrepo checkout -q -- . ; git -C /tmp/mutrepo checkout -q --detach "$(git -C /repo rev-parse HEAD)"
-rsync -a --exclude target /verif/sim/ /tmp/mutverif/sim/ && sed -i 's#path = "/repo"#path = "/tmp/mutrepo"#' /tmp/mutverif/sim/Cargo.toml
-cp /verif/known_findings.json /tmp/mutverif/
-mkdir -p /tmp/mutverif/miri && rsync -a --exclude target /verif/sim/miri/ /tmp/mutverif/miri/ && sed -i 's#path = "/repo"#path = "/tmp/mutrepo"#' /tmp/mutverif/miri/Cargo.toml
+git -C $MR checkout -q -- . ; git -C $MR checkout -q --detach "$(git -C /repo rev-parse HEAD)"
+rsync -a --exclude target /verif/sim/ $MV/sim/ && sed -i "s#path = \"/repo\"#path = \"$MR\"#" $MV/sim/Cargo.toml
+cp /verif/known_findings.json $MV/
+mkdir -p $MV/miri && rsync -a --exclude target /verif/sim/miri/ $MV/miri/ && sed -i "s#path = \"/repo\"#path = \"$MR\"#" $MV/miri/Cargo.toml
 [ -n "${APPEND:-}" ] || echo "# $(date -u +%FT%TZ) machinery $(git -C /verif rev-parse --short HEAD) repo $(git -C /repo rev-parse --short HEAD)" > "$OUT"
 for ID in $IDS; do
   P=${ID%%-*}; PATCH=/verif/seeded/$ID/patch.diff
-  cd /tmp/mutrepo; git reset -q --hard; git clean -fdq src tests 2>/dev/null
+  cd $MR; git reset -q --hard; git clean -fdq src tests 2>/dev/null
   HOW=apply
   if ! git apply "$PATCH" 2>/dev/null; then
     # the seed was written against an earlier HEAD (before later hook / fix commits): retry with
@@ -21,15 +24,15 @@ for ID in $IDS; do
     elif patch -p1 -F3 -s --no-backup-if-mismatch < "$PATCH" >/dev/null 2>&1; then HOW=patch-fuzz
     else echo "$ID $P PATCH-DOES-NOT-APPLY" >> "$OUT"; git reset -q --hard; continue; fi
   fi
-  (cd /tmp/mutverif/sim && CARGO_NET_OFFLINE=true cargo build --release --offline >/dev/null 2>&1) || { echo "$ID $P BUILD-FAILED" >> "$OUT"; continue; }
-  RES=$(VERIF_DIR=/tmp/mutverif timeout 1500 /tmp/mutverif/sim/target/release/tausim check $P 2>&1); RC=$?
+  (cd $MV/sim && CARGO_NET_OFFLINE=true cargo build --release --offline >/dev/null 2>&1) || { echo "$ID $P BUILD-FAILED" >> "$OUT"; continue; }
+  RES=$(VERIF_DIR=$MV timeout 1500 $MV/sim/target/release/tausim check $P ${SEEDARG:-} ${WORKERS:+--workers $WORKERS} 2>&1); RC=$?
   KEY=$(echo "$RES" | grep -a -A1 "^VIOLATION" | grep -a "^  [a-z_]*|" | head -1 | sed 's/ (observed.*//; s/^  //')
   [ -z "$KEY" ] && KEY=$(echo "$RES" | grep -a -A1 "^VIOLATION" | sed -n 2p | cut -c1-60)
   if [ $RC -eq 2 ] && [ "$P" = C12 ]; then
-    M=$(cd /tmp/mutverif/miri && MIRIFLAGS="-Zmiri-many-seeds=0..16 -Zmiri-preemption-rate=0.1" timeout 1500 cargo +nightly miri run --offline 2>&1 | grep -a -m1 "MIRI-VIOLATION")
+    M=$(cd $MV/miri && MIRIFLAGS="-Zmiri-many-seeds=0..16 -Zmiri-preemption-rate=0.1" timeout 1500 cargo +nightly miri run --offline 2>&1 | grep -a -m1 "MIRI-VIOLATION")
     [ -n "$M" ] && RC=1 && KEY="miri: $M"
   fi
   echo "$ID $P exit=$RC ($HOW) $KEY" >> "$OUT"
 done
-git -C /tmp/mutrepo reset -q --hard
+git -C $MR reset -q --hard
 echo "# done: $(grep -c 'exit=1' "$OUT") of $(grep -c '^C' "$OUT") detected" >> "$OUT"
